@@ -121,6 +121,9 @@ func (g *Gen) next0(s Snap, remaining int) Op {
 			return g.next0(s, remaining)
 		}
 	}
+	if r.Chance(2) { // the upgrade's module migration, anywhere in a history
+		return Op{Kind: "Migrate"}
+	}
 	w := []int{22, 8, 8, 13, 8, 10, 8, 6, 6, 9, 2}
 	if g.prop == "C06" {
 		w = []int{16, 4, 4, 14, 10, 16, 11, 9, 7, 8, 3}
@@ -336,7 +339,15 @@ func (g *Gen) queueMotif(s Snap) {
 		h = uint64(100 + r.Intn(1000))
 		g.motif = append(g.motif, Op{Kind: "Observe", H: h})
 	}
-	switch r.Intn(6) {
+	switch r.Intn(7) {
+	case 6: // a batch, then blocks pass without any event (the projected height runs ahead of the observed one), then the migration
+		g.motif = append(g.motif,
+			Op{Kind: "Send", Sender: 0, Dest: 1, Amount: 10, Fee: 5, Token: tok},
+			Op{Kind: "RequestBatch", Token: tok, Which: 1, FeeRcv: 0, BaseFee: 0, MinFee: 1, Auth: true})
+		for i, n := 0, 6+r.Intn(8); i < n; i++ {
+			g.motif = append(g.motif, Op{Kind: "NextBlock"})
+		}
+		g.motif = append(g.motif, Op{Kind: "Migrate"}, Op{Kind: "Send", Sender: 1, Dest: 1, Amount: 3, Fee: 2, Token: tok})
 	case 5: // batch time-outs that are not monotone in the nonce: the older batch has the later time-out
 		nb := 1 + r.Intn(4)
 		g.motif = append(g.motif, Op{Kind: "Send", Sender: 0, Dest: 1, Amount: 10, Fee: 5, Token: tok})
